@@ -217,6 +217,88 @@ Proof.
     + intros Hc. destruct (Hwin Hc) as (W1 & _). rewrite W1. exact Hsw.
 Qed.
 
+(* the same digest keyed on the model's own keep-alive decision: the branch tag 245 of tcp_dispatch
+   is present exactly when dispatch turned the (empty) segment into a keep-alive.  For every
+   TRANSMITTED segment without that tag all claims hold - no side condition on the segment. *)
+Theorem dispatch_sent_segments : forall cx g s e s' tags p,
+  inv g s -> ctx_ok cx -> tcp_dispatch cx s e = Ok (s', DSent p, tags) -> ~ In 245 tags ->
+  let r := snd p in
+  let n := l_len (r_payload r) in
+  ((0 < n \/ r_control r = CFin -> data_seg_ok cx g s p) /\
+   (r_control r = CSyn -> n = 0 /\ r_seq_number r = sq (g_iss g) /\ g_phase g = PSyn /\
+                          r_window_len r = u16_try (rb_window (s_rx_buffer s))) /\
+   (r_control r = CRst -> n = 0)) /\
+  (r_control r <> CSyn -> r_window_len r = tcp_scaled_window s).
+Proof.
+  intros cx g s e s' tags p Hinv Hcx H Hnt. cbv zeta.
+  destruct (dispatch_inv_full _ _ _ _ _ _ _ Hinv Hcx H)
+    as (g1 & s1 & g' & Hg1 & Hinv1 & Hfr & _ & _ & _ & _ & Hres).
+  destruct Hres as (zwp & ka & Hok & Hip & _ & _ & Htag).
+  pose proof Hfr as (F1 & F2 & F3 & F4 & F5 & F6 & F7 & F8 & F9 & F10 & F11).
+  assert (Hsw : tcp_scaled_window s1 = tcp_scaled_window s).
+  { unfold tcp_scaled_window. rewrite F8, F6. reflexivity. }
+  assert (Hgg : g_iss g1 = g_iss g /\ g_stream g1 = g_stream g /\ g_acked g1 = g_acked g /\
+                g_phase g1 = g_phase g /\ g_fin g1 = g_fin g /\ g_hw g1 = g_hw g /\ g_una g1 = g_una g).
+  { destruct Hg1 as [->| ->]; repeat split; reflexivity. }
+  destruct Hgg as (G1 & G2 & G3 & G4 & G5 & G6 & G7).
+  destruct Hok as (Hka & Hnka).
+  destruct ka; [exfalso; exact (Hnt Htag)|].
+  revert Hka Hnka. intros Hka Hnka.
+  cut True; [intros _|exact I].
+  destruct (Hnka eq_refl) as (Hdata & Hsyn & Hrst & Hwin). clear Hka Hnka.
+    split.
+    + split; [|split].
+      * intros Hpre. destruct (Hdata Hpre) as (P & Hds & Hhl & off & Hoff & Es & Epl & Hol & Hmss & Hz0 & Hz1 & Hfin).
+        pose proof Hinv1 as ((Hwf & Hcap & Ha & Hlen & Hc & Hl & Hr & Hf & Hhw & Hpo & Hw & Hs) & Htm).
+        pose proof Hwf as (Hl0 & _).
+        unfold data_seg_ok. cbv zeta. exists (g_acked g + off).
+        assert (U : g_una g1 = 1 + g_acked g) by (unfold g_una; rewrite P, G3; reflexivity).
+        assert (Hoff0 : 0 <= off) by (destruct Hoff; lia).
+        split; [rewrite Es, G1, U; f_equal; lia|]. split; [lia|].
+        split; [rewrite <- G2, <- Hlen, G3; lia|].
+        split; [rewrite <- G2, <- G3; exact Epl|].
+        split.
+        { destruct zwp.
+          - destruct (Hz1 eq_refl) as (Z1 & Z2 & Z3 & Z4).
+            pose proof (l_len_nonneg (r_payload (snd p))) as Hn0.
+            destruct (Z.eq_dec (l_len (r_payload (snd p))) 0) as [E0|E0]; [left; exact E0|].
+            right. right. split; [lia|]. split.
+            + destruct Htm as (T1 & _). rewrite <- F3. apply T1.
+              unfold timer_should_zero_window_probe in Z4. destruct (s_timer s1); try discriminate. reflexivity.
+            + exists s1. split; [exact Hfr|exact Z4].
+          - destruct (Hz0 eq_refl) as [E0|E0]; [left; exact E0|]. right. left. rewrite <- F3. lia. }
+        split.
+        { intros Hn. destruct (eff_mss_bounds (cx_ip_mtu cx) (s_remote_mss s1) (ts_opt s1)) as (_ & B2 & B3).
+          { unfold ts_opt. destruct (s_tsval_generator s1); lia. }
+          split; [rewrite <- F5; lia|].
+          rewrite Hip. unfold repr_buffer_len. rewrite Hhl. specialize (B3 ltac:(lia)). lia. }
+        split; [rewrite <- G6; lia|].
+        intros Ef. destruct (Hfin Ef) as (E1 & E2). split.
+        -- unfold phase_ok in Hpo. rewrite P in Hpo. rewrite <- G5.
+           destruct (s_state s1); cbn [fin_state] in E2; try discriminate; tauto.
+        -- rewrite <- G2, <- Hlen, G3. lia.
+      * intros Ec. destruct (Hsyn Ec) as (N0 & P & _ & Es & Ew & _).
+        split; [exact N0|]. split; [|split; [rewrite <- G4; exact P|rewrite Ew, F8; reflexivity]].
+        rewrite Es, G1. unfold g_una. rewrite P. f_equal. lia.
+      * intros Ec. destruct (Hrst Ec) as (N0 & _). exact N0.
+    + intros Hc. destruct (Hwin Hc) as (W1 & _). rewrite W1. exact Hsw.
+Qed.
+
+(* ... and a transmitted data or FIN segment that is not a keep-alive is sent in the data phase *)
+Theorem dispatch_sent_phase : forall cx g s e s' tags p,
+  inv g s -> ctx_ok cx -> tcp_dispatch cx s e = Ok (s', DSent p, tags) -> ~ In 245 tags ->
+  0 < l_len (r_payload (snd p)) \/ r_control (snd p) = CFin -> g_phase g = PData.
+Proof.
+  intros cx g s e s' tags p Hinv Hcx H Hnt Hpre.
+  destruct (dispatch_inv_full _ _ _ _ _ _ _ Hinv Hcx H)
+    as (g1 & s1 & g' & Hg1 & _ & _ & _ & _ & _ & _ & Hres).
+  destruct Hres as (zwp & ka & (_ & Hnka) & _ & _ & _ & Htag).
+  destruct ka; [exfalso; exact (Hnt Htag)|].
+  destruct (Hnka eq_refl) as (Hdata & _). destruct (Hdata Hpre) as (P & _).
+  destruct Hg1 as [->| ->]; exact P.
+Qed.
+
+
 (* ------------------------------------------------------------------------------------------ *)
 (* layer 5: every history                                                                       *)
 (* ------------------------------------------------------------------------------------------ *)
@@ -230,9 +312,23 @@ Definition seg_claims (cx : ctx) (g : ghost) (s : socket) (p : packet) : Prop :=
    (r_control r = CRst -> n = 0)) /\
   (r_control r <> CSyn -> r_window_len r = tcp_scaled_window s).
 
-Definition step_claims (cx : ctx) (g : ghost) (s : socket) (ev : event) (out : step_out) : Prop :=
+Definition sent_claims (cx : ctx) (g : ghost) (s : socket) (p : packet) : Prop :=
+  let r := snd p in
+  let n := l_len (r_payload r) in
+  ((0 < n \/ r_control r = CFin -> data_seg_ok cx g s p) /\
+   (r_control r = CSyn -> n = 0 /\ r_seq_number r = sq (g_iss g) /\ g_phase g = PSyn /\
+                          r_window_len r = u16_try (rb_window (s_rx_buffer s))) /\
+   (r_control r = CRst -> n = 0)) /\
+  (r_control r <> CSyn -> r_window_len r = tcp_scaled_window s).
+
+(* every built segment satisfies [seg_claims]; every TRANSMITTED segment that the model did not
+   turn into a keep-alive (branch tag 245 absent) satisfies [sent_claims] unconditionally *)
+Definition step_claims (cx : ctx) (g : ghost) (s : socket) (ev : event) (out : step_out)
+           (tags : list Z) : Prop :=
   match ev, out with
-  | EvDispatch _, ODispatch res => forall p, disp_pkt res = Some p -> seg_claims cx g s p
+  | EvDispatch _, ODispatch res =>
+      (forall p, disp_pkt res = Some p -> seg_claims cx g s p) /\
+      (forall p, res = DSent p -> ~ In 245 tags -> sent_claims cx g s p)
   | _, _ => True
   end.
 
@@ -244,8 +340,8 @@ Fixpoint hist_ok (g : ghost) (s : socket) (evs : list (ctx * event)) : Prop :=
   | [] => True
   | (cx, ev) :: rest =>
       match tcp_step cx s ev with
-      | Ok (s', out, _) =>
-          step_claims cx g s ev out /\
+      | Ok (s', out, tags) =>
+          step_claims cx g s ev out tags /\
           exists g', inv g' s' /\ ghost_rel g g' /\ hist_ok g' s' rest
       | _ => True
       end
@@ -260,10 +356,11 @@ Proof.
   destruct (tx_step_inv _ _ _ _ _ _ _ Hinv Hcx Hev E) as (g' & Hinv' & Hrel).
   split.
   - unfold step_claims. destruct ev; try exact I. destruct out; try exact I.
-    intros p Hp. cbn [tcp_step] in E.
+    cbn [tcp_step] in E.
     destruct (tcp_dispatch cx s emit_ok) as [[[s1 rs] tg]| |] eqn:Ed; cbn [obind] in E; try discriminate.
-    injection E as <- <- <-.
-    exact (dispatch_segments _ _ _ _ _ _ _ _ Hinv Hcx Ed Hp).
+    injection E as <- <- <-. split.
+    + intros p Hp. exact (dispatch_segments _ _ _ _ _ _ _ _ Hinv Hcx Ed Hp).
+    + intros p -> Hnt. exact (dispatch_sent_segments _ _ _ _ _ _ _ Hinv Hcx Ed Hnt).
   - exists g'. split; [exact Hinv'|]. split; [exact Hrel|]. apply IH; assumption.
 Qed.
 
